@@ -33,6 +33,8 @@ type pipeCase struct {
 	WriteBack  bool // also write the parsed structure back as a definition text (iodef.Write)
 	ViaPre     bool // write the preprocessed structure as .inkfempre text, read it back, continue from that
 	ScratchDir string
+	Repo       string // working tree of the repository (the template files are read from it)
+	Templates  bool   // also record what the output templates see of the values they are executed on
 }
 
 type jNode struct {
@@ -118,6 +120,9 @@ type jPipeOut struct {
 	PreText    string `json:",omitempty"`
 	DefText    string `json:",omitempty"`
 	SolText    string `json:",omitempty"`
+	DefData    *jCtx  `json:",omitempty"`
+	PreData    *jCtx  `json:",omitempty"`
+	SolData    *jCtx  `json:",omitempty"`
 }
 
 func init() { commands["pipeline"] = cmdPipeline }
@@ -229,6 +234,11 @@ func runPipe(c pipeCase) (out jPipeOut) {
 		var buf bytes.Buffer
 		guard(&out.ParsePanic, func() { iodef.Write(str, &buf) })
 		out.DefText = buf.String()
+		if c.Templates && out.ParsePanic == "" {
+			guard(&out.ParsePanic, func() {
+				out.DefData = templateData("definition", readTemplate(c.Repo, "io/def/definition.template.txt"), str)
+			})
+		}
 	}
 	if c.ParseOnly {
 		return
@@ -259,6 +269,9 @@ func runPipe(c pipeCase) (out jPipeOut) {
 			var buf bytes.Buffer
 			iopre.Write(pre, &buf)
 			out.PreText = buf.String()
+			if c.Templates {
+				out.PreData = templateData("preprocess", readTemplate(c.Repo, "io/pre/preprocess.template.txt"), pre)
+			}
 			pre = iopre.Read(strings.NewReader(out.PreText))
 			jp = dumpPre(pre)
 		})
@@ -313,6 +326,9 @@ func runPipe(c pipeCase) (out jPipeOut) {
 				var sbuf bytes.Buffer
 				iosol.Write(sol, &sbuf)
 				out.SolText = sbuf.String()
+				if c.Templates {
+					out.SolData = templateData("solution", readTemplate(c.Repo, "io/sol/solution.template.txt"), sol)
+				}
 				out.Reactions = map[string][3]string{}
 				for id, r := range sol.NodeReactions() {
 					out.Reactions[id] = t3(r)
@@ -321,6 +337,14 @@ func runPipe(c pipeCase) (out jPipeOut) {
 		}
 	}
 	return
+}
+
+func readTemplate(repo, rel string) string {
+	raw, err := os.ReadFile(repo + "/" + rel)
+	if err != nil {
+		panic(err)
+	}
+	return string(raw)
 }
 
 // readU reads the solver's raw answer from the observer hook's dump.
